@@ -360,6 +360,7 @@ func resetRuntime() {
 	PermuteMaps = false
 	ExploreSchedules = false
 	resetStubs()
+	selectPassed = map[*ssa.Select]map[int]int{}
 	resetVFS()
 	resetRace()
 }
